@@ -314,14 +314,36 @@ def _run_case(case, res):
                     fail(f"system_root.visit() returned {ret!r} after a StopTraversal(41) at callback #{kth}")
                 if not add_self and seq != sh.order(-1, method, False):
                     fail(f"system_root.iterator({method}) yields {seq}, expected {sh.order(-1, method, False)}")
+            elif case["mode"] == "memo_value":
+                # the callbacks collect into the memo visit() made for them and hand it back as the stop value
+                k = case["stop_at"]
+                seq = sh.order(start, method, add_self)
+
+                def cbm(node, memo):
+                    memo.setdefault("seen", []).append(idx_of.get(id(node), "?"))
+                    if len(memo["seen"]) == k + 1:
+                        from nutree import StopTraversal
+
+                        if case["raise"]:
+                            raise StopTraversal(memo)
+                        return StopTraversal(memo)
+
+                ret = (t.visit(cbm, method=im) if start == -1 else sobj.visit(cbm, add_self=add_self, method=im))
+                res.count("memo_as_stop_value")
+                if k < len(seq) and (not isinstance(ret, dict) or ret.get("seen") != seq[: k + 1]):
+                    fail(f"visit({method}) stopped at callback #{k} with StopTraversal(memo): returned {ret!r}, the memo held {seq[:k + 1]}")
             elif case["mode"] == "unsupported":
                 # an entry point may refuse a method with NotImplementedError, or support it fully
                 try:
                     if case["entry"] == "node_iter":
-                        got = [idx_of.get(id(n), "?") for n in nodes[0].iterator(im)]
-                        exp_set = sorted(map(str, sh.order(0, "pre", False)))
+                        got = [idx_of.get(id(n), "?") for n in nodes[0].iterator(im, add_self=add_self)]
+                        exp_set = sorted(map(str, sh.order(0, "pre", add_self)))
                         if sorted(map(str, got)) != exp_set:
-                            fail(f"node.iterator({method}) is supported but is not a permutation of the branch: {got}")
+                            fail(f"node.iterator({method}, add_self={add_self}) is supported but is not a permutation of the branch: {got}")
+                        if method in ("random", "unordered"):
+                            gr = [idx_of.get(id(n), "ROOT") for n in t.system_root.iterator(im)]
+                            if sorted(map(str, gr)) != sorted(map(str, sh.order(-1, "pre", False))):
+                                fail(f"system_root.iterator({method}) is supported but is not a permutation of the tree's nodes: {gr}")
                     else:
                         trace = []
                         st = -1 if start == -1 else start
@@ -447,6 +469,13 @@ def cases_for_shape(f, *, cls, all_forms, rng):
         for m in ITER_METHODS:
             yield {"cls": cls, "f": fc, "start": -1, "method": m, "add_self": False, "mode": "iter", "prelude": True, "pseed": sh.n + 1}
             yield {"cls": cls, "f": fc, "start": -1, "method": m, "add_self": False, "mode": "unsupported", "entry": "node_iter"}
+        for m in VISIT_METHODS:
+            for st in (-1, 0):
+                yield {"cls": cls, "f": fc, "start": st, "method": m, "add_self": st == 0, "mode": "memo_value", "stop_at": min(1, sh.n - 1), "raise": st == 0}
+        for m in ("random", "unordered"):
+            # node-level iterators for the order-free methods: refused, or a permutation of exactly the branch
+            for add_self in (False, True):
+                yield {"cls": cls, "f": fc, "start": -1, "method": m, "add_self": add_self, "mode": "unsupported", "entry": "node_iter"}
         for m in ("level_rtl", "zigzag", "zigzag_rtl", "random", "unordered"):
             yield {"cls": cls, "f": fc, "start": -1, "method": m, "add_self": False, "mode": "unsupported", "entry": "visit"}
             yield {"cls": cls, "f": fc, "start": 0, "method": m, "add_self": False, "mode": "unsupported", "entry": "visit"}
